@@ -319,6 +319,9 @@ where
                         cases: per as u32,
                         failure_persistence: None,
                         max_shrink_iters: 4000,
+                        // Bounds shrinking of slow (e.g. livelocked, parked after the poll budget)
+                        // cases in real time; only the size of the replay file depends on it.
+                        max_shrink_time: 60_000,
                         max_global_rejects: 8,
                         max_local_rejects: 65536,
                         ..Config::default()
@@ -337,16 +340,9 @@ where
                             eprintln!("[case shard {shard}] {}", serde_json::to_string(&case).unwrap());
                         }
                         let tc = Instant::now();
-                        let mut out = run(&case);
+                        let out = run_one(run, &case, 1);
                         if trace {
                             eprintln!("[done shard {shard}] {:.3}s fail={:?}", tc.elapsed().as_secs_f64(), out.fail.as_ref().map(|f| &f.sig));
-                        }
-                        let panics = super::sim::take_panics();
-                        if out.fail.is_none() {
-                            if let Some(p) = panics.first() {
-                                let loc = p.split(": ").next().unwrap_or("").to_string();
-                                out.fail = Some(Failure::new(format!("panic/{loc}"), p.clone()));
-                            }
                         }
                         if !failed_once.get() {
                             let mut st = st.borrow_mut();
@@ -405,17 +401,18 @@ where
             }
         }
     }
-    let fails = failures.into_inner().unwrap();
+    let mut fails = failures.into_inner().unwrap();
+    // One failure per signature (each shard that found one has shrunk its own).
+    let mut seen_reason_sigs: HashSet<String> = HashSet::new();
+    fails.retain(|(_, reason)| seen_reason_sigs.insert(reason.split('|').next().unwrap_or("").to_string()));
     for (case, reason) in &fails {
-        // Re-run the shrunk case to obtain its own signature.
-        let _ = super::sim::take_panics();
-        let mut out = run(case);
-        let panics = super::sim::take_panics();
-        if out.fail.is_none() {
-            if let Some(p) = panics.first() {
-                let loc = p.split(": ").next().unwrap_or("").to_string();
-                out.fail = Some(Failure::new(format!("panic/{loc}"), p.clone()));
-            }
+        // Re-run the shrunk case to obtain its own signature. A livelock verdict is confirmed with
+        // four times the poll budget: a genuine livelock trips any budget, a busy case does not.
+        let out = run_confirmed(&run, case);
+        if out.fail.is_none() && reason.contains("[spin guard") {
+            // The failure was produced by parking a case that is busy but not livelocked.
+            report.inconclusive += 1;
+            continue;
         }
         let f = out.fail.unwrap_or_else(|| {
             let mut it = reason.splitn(2, '|');
@@ -456,16 +453,7 @@ where
                         if i >= cases.len() {
                             break;
                         }
-                        let _ = super::sim::take_panics();
-                        let out = std::panic::catch_unwind(std::panic::AssertUnwindSafe(|| run(&cases[i])));
-                        let panics = super::sim::take_panics();
-                        let mut out = out.unwrap_or_default();
-                        if out.fail.is_none() {
-                            if let Some(p) = panics.first() {
-                                let loc = p.split(": ").next().unwrap_or("").to_string();
-                                out.fail = Some(Failure::new(format!("panic/{loc}"), p.clone()));
-                            }
-                        }
+                        let out = run_confirmed(run, &cases[i]);
                         results.lock().unwrap().push((i, out));
                     }
                 })
@@ -535,6 +523,56 @@ pub fn load_replay(path: &str) -> (String, Value) {
     (part, case)
 }
 
+/// Records that the simulation's spin guard parked the tasks of this case (sim::run_sim): a
+/// failure then says so; a case that passed nevertheless is counted inconclusive.
+fn note_spin(out: &mut Outcome) {
+    if super::sim::take_spin() {
+        out.classes.push("engine:spin-guard-tripped".into());
+        match &mut out.fail {
+            Some(f) => f.msg.push_str(" [spin guard: the tasks kept waking each other without virtual time advancing (livelock); they were parked so that the deadlines could fire]"),
+            None => out.inconclusive = true,
+        }
+    }
+}
+
+/// Runs one case: panics become failures, the simulation's global virtual deadline (a harness
+/// future that can never complete) becomes an inconclusive outcome, the spin guard is noted.
+fn run_one<C, R>(run: &R, case: &C, spin_scale: u64) -> Outcome
+where
+    R: Fn(&C) -> Outcome,
+{
+    let _ = super::sim::take_panics();
+    let _ = super::sim::take_sim_deadline();
+    let out = std::panic::catch_unwind(std::panic::AssertUnwindSafe(|| super::sim::with_spin_scale(spin_scale, || run(case))));
+    let panics = super::sim::take_panics();
+    if super::sim::take_sim_deadline() {
+        let _ = super::sim::take_spin();
+        return Outcome { inconclusive: true, classes: vec!["engine:global-virtual-deadline".into()], ..Default::default() };
+    }
+    let mut out = out.unwrap_or_default();
+    if out.fail.is_none() {
+        if let Some(p) = panics.first() {
+            let loc = p.split(": ").next().unwrap_or("").to_string();
+            out.fail = Some(Failure::new(format!("panic/{loc}"), p.clone()));
+        }
+    }
+    note_spin(&mut out);
+    out
+}
+
+/// Like `run_one`; a livelock verdict of the spin guard is confirmed with four times the poll
+/// budget and the confirmed run's verdict counts.
+fn run_confirmed<C, R>(run: &R, case: &C) -> Outcome
+where
+    R: Fn(&C) -> Outcome,
+{
+    let out = run_one(run, case, 1);
+    if out.classes.iter().any(|c| c == "engine:spin-guard-tripped") {
+        return run_one(run, case, 4);
+    }
+    out
+}
+
 /// Replays one case several times; returns the failure (if any) and reproduction rate.
 pub fn replay_case<C, R>(case: &C, run: R, times: u32) -> (Option<Failure>, u32)
 where
@@ -544,16 +582,7 @@ where
     let mut first = None;
     let mut hits = 0;
     for _ in 0..times {
-        let _ = super::sim::take_panics();
-        let out = std::panic::catch_unwind(std::panic::AssertUnwindSafe(|| run(case)));
-        let panics = super::sim::take_panics();
-        let mut out = out.unwrap_or_default();
-        if out.fail.is_none() {
-            if let Some(p) = panics.first() {
-                let loc = p.split(": ").next().unwrap_or("").to_string();
-                out.fail = Some(Failure::new(format!("panic/{loc}"), p.clone()));
-            }
-        }
+        let out = run_confirmed(&run, case);
         if let Some(f) = out.fail {
             hits += 1;
             if first.is_none() {
